@@ -227,7 +227,7 @@ def instrumented():
 class Probe:
     """One controlled execution of the real sampler."""
 
-    def __init__(self, cfg, symbols=None, base=0, monitors=(), pool=None, max_iters=60, fs=None):
+    def __init__(self, cfg, symbols=None, base=0, monitors=(), pool=None, max_iters=60, fs=None, iter_offset=0):
         self.cfg_in = dict(cfg)
         self.symbols = {int(k): v for k, v in (symbols or {}).items()}
         self.base = base
@@ -236,7 +236,8 @@ class Probe:
         self.state = self.sampler.state
         self.viol = []
         self.events = 0
-        self.iters = 0
+        self.iters = iter_offset
+        self.iter_offset = iter_offset
         self.in_iter = False
         self.kernel_calls = []
         self.max_iters = max_iters
@@ -250,7 +251,7 @@ class Probe:
     def _begin_iter(self):
         self.iters += 1
         self.in_iter = True
-        if self.iters > self.max_iters:
+        if self.iters - self.iter_offset > self.max_iters:
             raise Horizon(f"more than {self.max_iters} iterations")
         sym = self.symbols.get(self.iters, "a")
         self.tape.rs.seed(iter_seed(self.base, self.iters, sym))
@@ -265,6 +266,24 @@ class Probe:
         self.viol.append((key, msg, detail))
 
     # -- driving --
+    @contextlib.contextmanager
+    def _stderr(self):
+        """cfg['stderr']=='encodedfile': an un-picklable text stream (what pytest / notebook front-ends install)."""
+        import sys, io
+        if self.cfg.get("stderr") != "encodedfile":
+            yield
+            return
+
+        class EncodedFile(io.TextIOWrapper):
+            pass
+
+        old = sys.stderr
+        sys.stderr = EncodedFile(io.BytesIO(), encoding="utf-8")
+        try:
+            yield
+        finally:
+            sys.stderr = old
+
     def _mount(self):
         if self.fs is None:
             return contextlib.nullcontext()
@@ -277,8 +296,8 @@ class Probe:
         prev = _ACTIVE
         _ACTIVE = self
         try:
-            with env.quiet(), instrumented(), self.tape, self._mount():
-                args = dict(n_total=self.cfg["n_total"], progress=False)
+            with env.quiet(), self._stderr(), instrumented(), self.tape, self._mount():
+                args = dict(n_total=self.cfg["n_total"], progress=bool(self.cfg.get("progress", False)))
                 if self.cfg.get("save_every") is not None:
                     args["save_every"] = self.cfg["save_every"]
                 args.update(kw)
